@@ -199,8 +199,8 @@ impl Cluster {
             ["o", site, ver, seqs] => {
                 let site: usize = site.parse().ok()?;
                 let ver: i64 = ver.parse().ok()?;
-                let (lo, hi) = crate::util::parse_range(seqs)?;
                 let (chs, last) = self.log.get(&(site, ver))?;
+                let (lo, hi) = chunk_spec(seqs, *last as u64)?;
                 let changes: Vec<Change> = chs.iter().filter(|c| c.seq as u64 >= lo && c.seq as u64 <= hi).map(Self::to_change).collect();
                 Some(ChangeV1 {
                     actor_id: actor_of(site),
@@ -261,7 +261,14 @@ impl Cluster {
         for it in items.split('|') {
             match self.parse_item(it) {
                 Some(c) => batch.push(c),
-                None => return if it.starts_with("o:") && it.split(':').count() == 4 { "err no-such-version".into() } else { "bad-op".into() },
+                None => {
+                    let p: Vec<&str> = it.split(':').collect();
+                    if p.len() == 4 && p[0] == "o" {
+                        let known = p[1].parse::<usize>().ok().zip(p[2].parse::<i64>().ok()).map(|k| self.log.contains_key(&k)).unwrap_or(false);
+                        return if known { "err bad-chunk".into() } else { "err no-such-version".into() };
+                    }
+                    return "bad-op".into();
+                }
             }
         }
         self.deliver(n, batch, ChangeSource::Broadcast)
@@ -624,6 +631,28 @@ impl Drop for Cluster {
     }
 }
 
+/// chunk spec of an `o:` item: `lo-hi`, `all` (= 0..=last) or `p<k>of<n>` (the k-th of n contiguous pieces of
+/// 0..=last; `None` when that piece is empty)
+pub fn chunk_spec(spec: &str, last: u64) -> Option<(u64, u64)> {
+    if spec == "all" {
+        return Some((0, last));
+    }
+    if let Some(rest) = spec.strip_prefix('p') {
+        let (k, n) = rest.split_once("of")?;
+        let (k, n): (u64, u64) = (k.parse().ok()?, n.parse().ok()?);
+        if n == 0 || k >= n {
+            return None;
+        }
+        let lo = k * (last + 1) / n;
+        let hi1 = (k + 1) * (last + 1) / n;
+        if hi1 <= lo {
+            return None;
+        }
+        return Some((lo, hi1 - 1));
+    }
+    crate::util::parse_range(spec)
+}
+
 fn err_short(e: &str) -> String {
     let e = e.to_lowercase();
     if e.contains("unique") || e.contains("constraint") {
@@ -634,4 +663,214 @@ fn err_short(e: &str) -> String {
         let s: String = e.chars().filter(|c| c.is_ascii_alphanumeric() || *c == ' ').take(60).collect();
         s.replace(' ', "-")
     }
+}
+
+// ------------------------------------------------------------------ generator + convergence oracle
+
+pub struct GenMix {
+    pub nodes: (u64, u64),
+    pub ops: (u64, u64),
+    pub crash: bool,
+    pub partial_chunks: bool,
+    pub lossy_sync: bool,
+}
+
+fn gen_val(rng: &mut crate::rng::Rng, col: &str) -> String {
+    match col {
+        "b" => match rng.below(6) {
+            0 => "n".into(),
+            _ => format!("i{}", rng.range(0, 3)),
+        },
+        _ => match rng.below(8) {
+            0 => "n".into(),
+            1 => "t".into(),
+            2 => format!("b{:02x}", rng.range(0x61, 0x63)),
+            3 => format!("t{:02x}{:02x}", rng.range(0x61, 0x62), rng.range(0x61, 0x62)),
+            _ => format!("t{:02x}", rng.range(0x61, 0x63)),
+        },
+    }
+}
+
+pub fn gen_stmt(rng: &mut crate::rng::Rng) -> String {
+    let tbl = *rng.pick(&["t", "t", "t", "u", "k"]);
+    let (_, cols) = table_cols(tbl).unwrap();
+    let pk = match tbl {
+        "u" => format!("i{}+t{:02x}", rng.range(1, 2), rng.range(0x61, 0x62)),
+        _ => format!("i{}", rng.range(1, 3)),
+    };
+    let kind = if cols.is_empty() { *rng.pick(&["ins", "del"]) } else { *rng.pick(&["ins", "ins", "upd", "upd", "upd", "del"]) };
+    match kind {
+        "del" => format!("del:{tbl}:{pk}"),
+        _ => {
+            let mut assigns = vec![];
+            for c in cols {
+                if rng.chance(2, 3) {
+                    assigns.push(format!("{c}={}", gen_val(rng, c)));
+                }
+            }
+            if kind == "upd" && assigns.is_empty() {
+                assigns.push(format!("{}={}", cols[0], gen_val(rng, cols[0])));
+            }
+            format!("{kind}:{tbl}:{pk}:{}", if assigns.is_empty() { "-".into() } else { assigns.join(",") })
+        }
+    }
+}
+
+/// a history of local writes, deliveries of original chunks, sync sessions (lossless, reversed or with
+/// dropped messages), optional kill/restart; ends with "stop writes, restart the dead, three lossless
+/// all-pairs sync rounds, dump everybody".
+pub fn gen_cluster_case(rng: &mut crate::rng::Rng, mix: &GenMix) -> Vec<String> {
+    let n = rng.range(mix.nodes.0, mix.nodes.1) as usize;
+    let nops = rng.range(mix.ops.0, mix.ops.1);
+    let mut ops = vec![];
+    let mut vers = vec![0u64; n];
+    let mut dead = vec![false; n];
+    for _ in 0..nops {
+        match rng.below(20) {
+            0..=6 => {
+                let node = rng.below(n as u64) as usize;
+                if dead[node] {
+                    continue;
+                }
+                let k = if rng.chance(1, 3) { rng.range(2, 4) } else { 1 };
+                let st: Vec<String> = (0..k).map(|_| gen_stmt(rng)).collect();
+                ops.push(format!("nw {node} {}", st.join(";")));
+                vers[node] += 1;
+            }
+            7..=11 => {
+                let site = rng.below(n as u64) as usize;
+                if vers[site] == 0 {
+                    continue;
+                }
+                let dst = rng.below(n as u64) as usize;
+                if dst == site {
+                    continue;
+                }
+                let cnt = rng.range(1, 3);
+                let mut items = vec![];
+                for _ in 0..cnt {
+                    let ver = rng.range(1, vers[site]);
+                    let spec = if mix.partial_chunks && rng.chance(1, 2) {
+                        let parts = rng.range(2, 3);
+                        format!("p{}of{parts}", rng.below(parts))
+                    } else {
+                        "all".to_string()
+                    };
+                    items.push(format!("o:{site}:{ver}:{spec}"));
+                }
+                if rng.chance(1, 12) {
+                    let v = rng.range(1, vers[site] + 1);
+                    items.push(format!("e:{site}:{v}-{}", v + rng.range(0, 1)));
+                }
+                ops.push(format!("nb {dst} {}", items.join("|")));
+            }
+            12..=15 => {
+                let d = rng.below(n as u64) as usize;
+                let s = rng.below(n as u64) as usize;
+                if d == s || dead[s] {
+                    continue;
+                }
+                let f = if !mix.lossy_sync {
+                    "all".to_string()
+                } else {
+                    match rng.below(6) {
+                        0 => "rev".to_string(),
+                        1 | 2 => format!("skip:{}", rng.below(3)),
+                        _ => "all".to_string(),
+                    }
+                };
+                ops.push(format!("nsync {d} {s} {f}"));
+            }
+            16 => ops.push(format!("ndump {}", rng.below(n as u64))),
+            17 => ops.push(format!("nstate {}", rng.below(n as u64))),
+            _ => {
+                if !mix.crash {
+                    continue;
+                }
+                let node = rng.below(n as u64) as usize;
+                if dead[node] {
+                    ops.push(format!("nrestart {node}"));
+                    dead[node] = false;
+                } else if rng.chance(1, 2) {
+                    ops.push(format!("nkill {node}"));
+                    dead[node] = true;
+                } else {
+                    ops.push(format!("nrestart {node}"));
+                }
+            }
+        }
+    }
+    for (i, d) in dead.iter().enumerate() {
+        if *d {
+            ops.push(format!("nrestart {i}"));
+        }
+    }
+    for _round in 0..3 {
+        for d in 0..n {
+            for s in 0..n {
+                if d != s {
+                    ops.push(format!("nsync {d} {s} all"));
+                }
+            }
+        }
+    }
+    for i in 0..n {
+        ops.push(format!("ndump {i}"));
+    }
+    ops
+}
+
+/// the property oracle on the implementation's own final dumps (the trailing block of `ndump` ops):
+/// identical tables and identical (table, pk, cid, value, col_version, cl) sets on all nodes, no version
+/// needed or partial anywhere, equal heads.
+pub fn convergence_oracle(ops: &[String], outputs: &[String]) -> Vec<String> {
+    let mut dumps: Vec<(String, String)> = vec![];
+    for (op, out) in ops.iter().zip(outputs.iter()).rev() {
+        let t: Vec<&str> = op.split_whitespace().collect();
+        if t.first() == Some(&"ndump") {
+            dumps.push((t[1].to_string(), out.clone()));
+        } else {
+            break;
+        }
+    }
+    let mut fails = vec![];
+    if dumps.len() < 2 {
+        return fails;
+    }
+    let strip = |d: &str| -> (String, String, String) {
+        let parts: Vec<&str> = d.split(" | ").collect();
+        let ch = parts.first().copied().unwrap_or("");
+        let rows = parts.get(1).copied().unwrap_or("").to_string();
+        let book = parts.get(2).copied().unwrap_or("").to_string();
+        let ents: Vec<String> = ch
+            .split(';')
+            .map(|e| {
+                let (kv, clock) = e.rsplit_once('@').unwrap_or((e, ""));
+                let mut p = clock.split('.');
+                format!("{kv}@{}.{}", p.next().unwrap_or(""), p.next().unwrap_or(""))
+            })
+            .collect();
+        (ents.join(";"), rows, book)
+    };
+    let (e0, r0, _) = strip(&dumps[0].1);
+    for (n, d) in &dumps {
+        let (e, r, book) = strip(d);
+        if r != r0 {
+            fails.push(format!("replicated tables differ at quiescence: node {n} vs node {}", dumps[0].0));
+        } else if e != e0 {
+            fails.push(format!("per-cell (col_version, cl) differ at quiescence: node {n} vs node {}", dumps[0].0));
+        }
+        if let Some(mem) = book.split("mem[").nth(1).and_then(|x| x.split(']').next()) {
+            for ent in mem.split(" a").filter(|x| !x.is_empty()) {
+                if !ent.contains("need=- ") {
+                    fails.push(format!("node {n} still needs versions at quiescence: a{}", ent.trim_start_matches('a')));
+                }
+            }
+        }
+        if !book.contains("seqs[]") || !book.contains("buf[]") {
+            fails.push(format!("node {n} still holds buffered / partial versions at quiescence"));
+        }
+    }
+    fails.dedup();
+    fails
 }
